@@ -118,9 +118,9 @@ class C13(Check):
 
     def budget(self, tier):
         q = tier == 'quick'
-        return {'basis': 360 if q else 8000, 'basis_scalar': 300 if q else 6000, 'basis_int': 80 if q else 1000,
-                'fit': 700 if q else 16000, 'fit_exact': 200 if q else 5000, 'fit_f32': 200 if q else 5000,
-                'tset_fit': 300 if q else 6000, 'tset_table': 200 if q else 5000, 'grid': 160 if q else 4000}
+        return {'basis': 1200 if q else 12000, 'basis_scalar': 800 if q else 8000, 'basis_int': 160 if q else 1500,
+                'fit': 2400 if q else 30000, 'fit_exact': 800 if q else 10000, 'fit_f32': 800 if q else 10000,
+                'tset_fit': 900 if q else 10000, 'tset_table': 700 if q else 8000, 'grid': 500 if q else 6000}
 
     # ------------------------------------------------------------------ generators
     def gen(self, cls, rng, i):
@@ -232,7 +232,7 @@ class C13(Check):
             case = {'kind': cls, 'dtype': dt, 'fn': fn, 'nc': nc, 'x': _lst(x), 'y': _lst(y),
                     'iv': None if wmode == 'none' else _lst(iv), 'ia': None if fixmode == 'none' else ia.tolist(),
                     'ans': None if ans is None else _lst(ans), 'inputfunc': None if inf is None else _lst(inf),
-                    'pseed': rng.getrandbits(32)}
+                    'pseed': rng.getrandbits(32), 'strided': rng.random() < 0.25}
             if ctrue is not None:
                 case['ctrue'] = _lst(ctrue)
             return case
@@ -333,7 +333,8 @@ class C13(Check):
             return {'kind': 'tset_fit', 'dtype': dt, 'func': func, 'nc': nc, 'xpos': [_lst(r) for r in xpos],
                     'ypos': [_lst(r) for r in ypos], 'invvar': None if iv is None else [_lst(r) for r in iv],
                     'inmask': None if inmask is None else inmask.tolist(), 'xmin': xmin, 'xmax': xmax, 'jump': jump,
-                    'maxiter': rng.choice([None, None, 0, 3, 20]), 'via': rng.choice(['xy2traceset', 'TraceSet'])}
+                    'maxiter': rng.choice([None, None, 0, 3, 20]), 'via': rng.choice(['xy2traceset', 'TraceSet']),
+                    'defaults': rng.random() < 0.5, 'minmax_int': rng.random() < 0.5, 'layout': rng.choice(['C', 'C', 'F'])}
         return None
 
     def gen_table(self, rng, g, i, deep, grid):
@@ -495,7 +496,14 @@ class C13(Check):
         ia = None if case['ia'] is None else np.array(case['ia'], dtype=bool)
         ans = None if case['ans'] is None else np.array(case['ans'], dtype=D)
         inf = None if case['inputfunc'] is None else np.array(case['inputfunc'], dtype=D)
-        args = [a if a is None else a.copy() for a in (x, y, iv, ia, ans, inf)]
+        def view(a):
+            # hostile memory layout: every second element of a larger buffer
+            if a is None or not case.get('strided') or a.dtype == bool:
+                return None if a is None else a.copy()
+            big = np.full(2 * a.size, 12345.0, dtype=a.dtype)
+            big[::2] = a
+            return big[::2]
+        args = [view(a) for a in (x, y, iv, ia, ans, inf)]
         res, yfit = self._call_fit(case, *args)
         # inputs must not be modified
         for name, a, b in zip(('x', 'y', 'invvar', 'ia', 'inputans', 'inputfunc'), (x, y, iv, ia, ans, inf), args):
@@ -579,7 +587,7 @@ class C13(Check):
             big = 1e6 * max(1.0, float(np.abs(y).max()))
             y2[zero] = (y2[zero].astype(np.float64) + p.choice([-1.0, 1.0], int(zero.sum())) * big).astype(D)
             x2[zero] = p.uniform(-1, 1, int(zero.sum())).astype(D)
-            res2, yfit2 = self._call_fit(case, x2, y2, iv, ia, ans, inf)
+            res2, yfit2 = self._call_fit(case, view(x2), view(y2), view(iv), ia, view(ans), view(inf))
             out.expect(np.array_equal(res2, res), 'fit-zero-weight-no-influence',
                        'coefficients changed when only zero-weight points were changed: %r -> %r'
                        % (res.tolist(), res2.tolist()))
@@ -610,6 +618,7 @@ class C13(Check):
         if jump is not None and jump_eps > eps:
             tolk = tolk + 100.0 * jump_eps * (2.0 * abs(jump[2]) / rng_) * np.maximum(np.arange(coeff.size) ** 2, 1.0)
         tol = (np.abs(c) * tolk) @ np.maximum(np.abs(B), 1.0) + 1e-300
+        self._amp = 1.0 + Rr          # amplification of input rounding by the normalisation (scales the H(x) band)
         return yref, tol, xn, B
 
     def _make_table(self, case):
@@ -635,7 +644,7 @@ class C13(Check):
             yref, tol, xn, B = self._eval_tol(func, coeff[t], xpos[t], xmin, xmax, jump, eps, power_form, jump_eps)
             dec = np.ones(xn.shape, dtype=bool)
             if func == 'chebyshev_split':
-                dec = np.abs(xn) >= band
+                dec = np.abs(xn) >= band * self._amp
                 out.undecide(int((~dec).sum()))
                 out.count('table_split_step_decided', int((dec & (np.abs(xn) < 0.2)).sum()))
             dev = np.abs(ypos[t].astype(np.float64) - yref)
@@ -661,6 +670,11 @@ class C13(Check):
         ypos = np.array(case['ypos'], dtype=D)
         nT, nx = xpos.shape
         kw = {'func': func, 'ncoeff': nc}
+        if case.get('defaults'):                  # documented defaults: legendre, 3 coefficients
+            if func == 'legendre':
+                del kw['func']
+            if nc == 3:
+                del kw['ncoeff']
         iv = inmask = None
         if case['invvar'] is not None:
             iv = np.array(case['invvar'], dtype=D)
@@ -671,13 +685,19 @@ class C13(Check):
             out.count('tset_inmask_used')
         if case['xmin'] is not None:
             kw['xmin'], kw['xmax'] = case['xmin'], case['xmax']
+            if case.get('minmax_int') and float(case['xmin']).is_integer() and float(case['xmax']).is_integer():
+                kw['xmin'], kw['xmax'] = int(case['xmin']), int(case['xmax'])
         jump = case['jump']
         if jump is not None:
             kw['xjumplo'], kw['xjumphi'], kw['xjumpval'] = jump
         if case['maxiter'] is not None:
             kw['maxiter'] = case['maxiter']
         ctor = T.xy2traceset if case['via'] == 'xy2traceset' else T.TraceSet
-        tset = ctor(xpos.copy(), ypos.copy(), **kw)
+        lay = np.asfortranarray if case.get('layout') == 'F' else np.array
+        for key in ('invvar', 'inmask'):
+            if key in kw:
+                kw[key] = lay(kw[key])
+        tset = ctor(lay(xpos), lay(ypos), **kw)
         x64 = xpos.astype(np.float64)
         xmin = float(x64.min()) if case['xmin'] is None else float(case['xmin'])
         xmax = float(x64.max()) if case['xmax'] is None else float(case['xmax'])
@@ -695,7 +715,7 @@ class C13(Check):
         out.expect(ye.shape == xpos.shape and np.array_equal(ye, ye2), 'tset-roundtrip', 'traceset2xy and TraceSet.xy differ')
         coeff = np.asarray(tset.coeff)
         yfit = np.asarray(tset.yfit)
-        rt_tol = 1e-12 if dt == 'f8' else 100.0 * R.EPS32
+        rt_tol = 1e-12 if dt == 'f8' else 200.0 * R.EPS32    # float32: coefficients, yfit and y each rounded to float32
         w = np.ones((nT, nx)) if iv is None else iv.astype(np.float64)
         if inmask is not None:
             w = w * inmask
@@ -706,6 +726,8 @@ class C13(Check):
             mscale = np.abs(coeff[t].astype(np.float64)) @ np.abs(B)
             dev = np.abs(ye[t].astype(np.float64) - yfit[t].astype(np.float64))
             bad = ~(dev <= rt_tol * mscale + 1e-300)
+            out.info['roundtrip_dev_over_tol'] = max(out.info.get('roundtrip_dev_over_tol', 0.0),
+                                                     float((dev / (rt_tol * mscale + 1e-300)).max()))
             if bad.any():
                 j = int(np.argmax(dev))
                 out.fail('tset-roundtrip', 'trace %d: traceset2xy gives %r at x=%r where the fit stored yfit=%r (scale %.3g)'
@@ -716,7 +738,7 @@ class C13(Check):
             # the evaluation is the textbook one: sum_k c_k basis_k(xnorm(x))
             dec = np.ones(nx, dtype=bool)
             if func == 'chebyshev_split':
-                dec = np.abs(xn) >= band
+                dec = np.abs(xn) >= band * self._amp
                 out.undecide(int((~dec).sum()))
             dev = np.abs(ye[t].astype(np.float64) - yref)
             bad = dec & ~(dev <= tol)
@@ -729,7 +751,7 @@ class C13(Check):
                 break
             out.checks += 1
             # the stored coefficients are the weighted least-squares ones (reference normalisation and weights)
-            if func == 'chebyshev_split' and (np.abs(xn[w[t] > 0]) < band).any():
+            if func == 'chebyshev_split' and (np.abs(xn[w[t] > 0]) < band * self._amp).any():
                 out.undecide()
                 continue
             ref = R.wlsq(B, ypos[t], w[t])
